@@ -145,6 +145,9 @@ struct Deque {
     how: u8,
 }
 impl Inst for Deque {
+    fn fresh_wakers(&self) -> bool {
+        false // documented contract: one consumer task; a different waker while one is registered is a panic / assert
+    }
     fn consume(&self) -> bool {
         true
     }
@@ -236,6 +239,9 @@ struct KeysInst {
     closed: bool,
 }
 impl Inst for KeysInst {
+    fn fresh_wakers(&self) -> bool {
+        false // documented contract: one consumer task; a different waker while one is registered is a panic / assert
+    }
     fn consume(&self) -> bool {
         false
     }
@@ -457,6 +463,9 @@ impl Inst for Combined {
 /// qconnection::path::RecvBuffer (PATH_RESPONSE frames): write / receive / dismiss over ArcAsyncDeque
 struct RecvBuf(qconnection::path::RecvBuffer<u32>);
 impl Inst for RecvBuf {
+    fn fresh_wakers(&self) -> bool {
+        false // documented contract: one consumer task; a different waker while one is registered is a panic / assert
+    }
     fn consume(&self) -> bool {
         true
     }
@@ -484,6 +493,9 @@ struct CryptoRead {
     far: u64,
 }
 impl Inst for CryptoRead {
+    fn fresh_wakers(&self) -> bool {
+        false // documented contract: one consumer task; a different waker while one is registered is a panic / assert
+    }
     fn consume(&self) -> bool {
         true
     }
@@ -532,6 +544,9 @@ impl CryptoFlush {
     }
 }
 impl Inst for CryptoFlush {
+    fn fresh_wakers(&self) -> bool {
+        false // documented contract: one consumer task; a different waker while one is registered is a panic / assert
+    }
     fn consume(&self) -> bool {
         false
     }
